@@ -22,6 +22,7 @@ func init() {
 			{"C01.key-limits", ruleC16Consts, ""},
 			{"C01.scan-cursor", ruleC11Cursor, ""},
 			{"C01.size-mirror", ruleC04SizeMirror, ""},
+			{"C01.array-bounds", ruleArrayBounds, ""},
 			{"C01.guarded", ruleGuarded, ""},
 			{"C01.kernel", ruleKernelShapes("(*pogreb.index).bucketIndex", "(*pogreb.bucket).del", "(*pogreb.slotWriter).insert", "(*pogreb.slotWriter).write", "(*pogreb.index).createOverflowBucket", "(*pogreb.bucketIterator).next", "(*pogreb.index).newBucketIterator", "(pogreb.slot).kvSize", "(*pogreb.datalog).readKey", "(*pogreb.datalog).readKeyValue"), ""},
 		},
@@ -63,6 +64,7 @@ func init() {
 			{"C09.errs", ruleErrs, ""},
 			{"C09.meta-symmetry", ruleC02MetaSymmetry, ""},
 			{"C09.older-first", ruleC03OlderFirst, ""},
+			{"C09.tail-handling", ruleC08Gates, ""},
 		},
 		Explanation: "Decides, on the call-string-cloned interprocedural graph of DB.Close: (sync-before-close) every fs.File.Close of a written file that lies on a success path of DB.Close is preceded on every path by File.Sync on the same file (same access path through the call string) with no write in between; (commit-last) writeMeta, datalog.close, index.close precede LockFile.Unlock on every path, every success return passes Unlock, nothing touches the file system after Unlock, only DB.Close calls Unlock, and datalog.close skips only nil segments. (sync-before-close, extended) DB.mu is not released between a file's last Sync and its Close; (older-first; shared) the ordering function of segments compares the sequence ids of its two arguments. NOT decided: that every power-loss image after Close reopens to the closed contents.",
 		Assumptions: commonAssumptions,
@@ -153,6 +155,7 @@ func init() {
 			{"C10.lock-order", ruleLockOrder, ""},
 			{"C10.goroutine", ruleGoroutine, ""},
 			{"C10.ticker-positive", ruleTickerPositive, ""},
+			{"C10.array-bounds", ruleArrayBounds, ""},
 			{"C10.fs-calls", ruleFSCalls, ""},
 			{"C10.fs-readers-pure", ruleFSReadersPure, ""},
 			{"C10.copy-inside-lock", ruleC14CopyInsideLock, ""},
@@ -191,6 +194,8 @@ func init() {
 			{"C05.compact-complete", ruleC03CompactComplete, ""},
 			{"C05.older-first", ruleC03OlderFirst, ""},
 			{"C05.chain-exit", ruleC01ChainExit, ""},
+			{"C05.array-bounds", ruleArrayBounds, ""},
+			{"C05.close-all-segments", ruleCloseOrder, ""},
 			{"C05.guarded", ruleGuarded, ""},
 			{"C05.error-fatal", ruleErrorFatal("(*pogreb.DB).Compact"), "primary"},
 			{"C05.remove-only-compaction", ruleRemoveSegmentOnlyCompaction, ""},
@@ -232,6 +237,7 @@ func init() {
 	register("C11", &propDef{
 		Rules: []ruleDef{
 			{"C11.chain-exit", ruleC01ChainExit, ""},
+			{"C11.array-bounds", ruleArrayBounds, ""},
 			{"C11.cursor", ruleC11Cursor, ""},
 			{"C11.guarded", ruleGuarded, ""},
 			{"C11.one-section", ruleOneSection, ""},
